@@ -7,6 +7,7 @@ import (
 	"strconv"
 	"strings"
 	"testing"
+	"time"
 
 	"github.com/bilibili/gengine/builder"
 	"github.com/bilibili/gengine/context"
@@ -28,6 +29,10 @@ type C10Case struct {
 	// submitted to the same objects through the same entry points, and to fresh objects in the
 	// same state: a rejected text must have no effect on what a later compile does.
 	Follow []byte `json:"follow,omitempty"`
+	// PreReject: before the text is submitted every object receives a management call that is
+	// rejected (RemoveRules with an empty list): the state "after a rejected call" is a state
+	// of the builder / pool like any other.
+	PreReject bool `json:"pre_reject,omitempty"`
 }
 
 // c10Reuse, when non-nil (native fuzzing only), caches the four S0 targets between
@@ -195,12 +200,7 @@ func (t *c10Target) observe(names []string) c10Obs {
 	t.env.log.Reset()
 	var m map[string]interface{}
 	var err error
-	func() {
-		defer func() {
-			if r := recover(); r != nil {
-				o.Panic = fmt.Sprint(r)
-			}
-		}()
+	_, o.Panic = guard(func() error {
 		if t.pool != nil {
 			for i, e := range t.pool.IsExist(names) {
 				o.Exist[names[i]] = e
@@ -214,7 +214,8 @@ func (t *c10Target) observe(names []string) c10Obs {
 			err = g.Execute(t.rb, true)
 			m, _ = g.GetRulesResultMap()
 		}
-	}()
+		return nil
+	})
 	o.Err = err != nil
 	for k, v := range m {
 		o.Results[k] = fmt.Sprint(v)
@@ -248,13 +249,29 @@ func (o c10Obs) key(withOrder bool) string {
 
 var ruleNameRe = regexp.MustCompile(`(?i)rule\s*"([^"]*)"`)
 
+// guard runs a builder / pool management call: a panic is returned as text, and a call that
+// does not return within the hang bound ends the shard as a hang suspect.
 func guard(f func() error) (err error, pan string) {
-	defer func() {
-		if r := recover(); r != nil {
-			pan = fmt.Sprint(r)
-		}
+	type out struct {
+		err error
+		pan string
+	}
+	ch := make(chan out, 1)
+	go func() {
+		defer func() {
+			if r := recover(); r != nil {
+				ch <- out{nil, fmt.Sprint(r)}
+			}
+		}()
+		ch <- out{f(), ""}
 	}()
-	return f(), ""
+	select {
+	case o := <-ch:
+		return o.err, o.pan
+	case <-time.After(hangBound()):
+		hangExit(currentCtx, currentCaseJSON, "a builder / pool management call did not return within "+hangBound().String())
+	}
+	return nil, ""
 }
 
 func init() {
@@ -307,6 +324,7 @@ func init() {
 					c.Text = []byte(rapid.StringN(0, 40, 120).Draw(t, "string"))
 				}
 			}
+			c.PreReject = pct(t, "pre_reject", 15)
 			if c.Kind != "valid" && pct(t, "follow", 50) {
 				exp, sal := c.Expect, c.Sal
 				c.Follow = []byte(c10ValidText(t, c))
@@ -384,6 +402,22 @@ func init() {
 						}
 					}
 				}()
+			}
+			if c.PreReject && c10Reuse == nil {
+				x.Class("objects-received-a-rejected-management-call-first")
+				for _, e := range es {
+					tg := e.tg
+					_, pan := guard(func() error {
+						if tg.pool != nil {
+							return tg.pool.RemoveRules([]string{})
+						}
+						return tg.rb.RemoveRules(nil)
+					})
+					if pan != "" {
+						x.Violation("panic:RemoveRules-empty", "RemoveRules with an empty list panicked: %s", truncate(pan, 200))
+						return
+					}
+				}
 			}
 			before := map[string]c10Obs{}
 			for _, e := range es {
